@@ -69,6 +69,11 @@ CHECKS = [
         "Float roles, random_int, arg_list and the legacy stdin roles are only covered by the table validation; real process streams are replaced by in-memory streams; unwritable paths are not exercised; the native runtime is out of scope.",
         "TLA+ contract models (text, UTF-8 automaton, handle table) model checked by TLC; spec->code replay through generated caller programs; code->spec TLC validation of the dumped role table; classifier mutation",
         "DESIGN.md §4 C06"),
+    chk("C07", "model_checking",
+        "spec/ZyScope.tla defines the resolution function Res (occurrence -> binder) by environment threading that mirrors resolver.rs/blocks.rs (pattern-then-body, left-to-right pattern components, annotation before its binder, bindee in the outer environment, arms from the match's environment, block-wide `that` names with shadowing and duplicate detection, empty environment at import boundaries). TLC enumerates every named term over two names up to 5 tokens (293349 terms; thorough 6) and checks BoundaryHygiene and - at 4 tokens - AlphaInvariance (renaming any binder and its occurrences to a fresh name leaves Res unchanged). Every term is rendered (imports as real second files), resolved by the real pipeline and the real occurrence->binder map, read from ProgramAnalysis by source position, must equal Res; unbound-variable and duplicate-definition errors exactly as predicted. Behavioural half: every ZyCore program rendered under max-shadowing, random and lean-random naming must give the name-free prediction of the reference semantics.",
+        "Two names, formers listed in the spec header; copattern clauses, alias patterns and projection patterns are not generated.",
+        "TLA+ resolution function model checked by TLC (alpha-invariance, boundary hygiene); spec->code replay comparing binder maps by source position; naming-strategy replay against the reference semantics",
+        "DESIGN.md §4 C07"),
 ]
 
 PENDING_REASON = "check not built yet (planned, see DESIGN.md)"
